@@ -49,7 +49,7 @@ META = {
                     'footnote_in_subunit', 'exec_env', 'starred_unit', 'e2_history'],
     'shrink_budget': 60,
 }
-RUN_TIMEOUT = 900
+RUN_TIMEOUT = 3600
 JOB = 'sim.props.c13:render_jobs'
 
 LEVELS = {'article': [('section', 1), ('subsection', 2), ('subsubsection', 3), ('paragraph', 4)],
@@ -486,7 +486,7 @@ def execute(record):
             e = {'HOME': base, 'TEXINPUTS': base}
             e.update(environ or {})
             setup = {'root': base, 'cwd': cwd, 'clock': clock, 'perm_seed': perm, 'env': {'environ': e}}
-            st, out = lifetimes.run_lifetime(JOB, {'jobs': jobs}, setup, mode=mode, hashseed=env['hashseed'], timeout=240)
+            st, out = lifetimes.run_lifetime(JOB, {'jobs': jobs}, setup, mode=mode, hashseed=env["hashseed"], timeout=900)
             if st != 'ok' or not out.get('ok'):
                 raise core.HarnessError('render lifetime failed: %s' % (out and out.get('traceback')))
             return out['result']
